@@ -218,11 +218,20 @@ CLAIMS.update({
                 text="AuthTable.tla is the decision table of ActivateSession over 5 endpoint configurations x 2 security policies x token kinds (anonymous, user name plain / encrypted for the current or an EARLIER nonce / wrong algorithm, X.509 with good / bad signature and configured / unconfigured thumbprint, issued, garbage) x policy id, user, password variations (2088 points); TLC checks the specified decision for every point and emits them; histories with nonce generations and byte-identical replays of earlier tokens are model-checked and generated; every point and history runs through the real ActivateSession of a real server; the results are judged by the TLA+ predicate / monitor in TLC."),
 })
 
-NOT_APPLICABLE = {
-    "C41": "identity of a third-party YAML serializer over configuration records: no state, transition or case analysis for a TLA+ specification to own, and TLC cannot enumerate the string space that matters (DESIGN.md section 5)",
-    "C42": "encode/decode fidelity of serde implementations with identity as the only oracle: outside what a TLA+ model decides (DESIGN.md section 5)",
-}
+FN2_NOTE = ("Trusted: TLC/SANY and the CommunityModules (Json, IOUtils), the python driver, util::guard (catch_unwind). ")
+CLAIMS.update({
+    "C41": dict(engine="config_rt", level="model_checking",
+                note=FN2_NOTE + "Also trusted: the string table and numeric points in h_config/src/table.rs (injectivity asserted at start-up), ClientBuilder setters and serde_json as the projection used to re-abstract a configuration, the derived PartialEq / Debug, a log-capturing logger, the temp-dir file system. Bounded: the abstract class space (86 YAML-relevant string classes, None/Some, collections of 0-3 entries, every policy / mode spelling, numeric extremes); arbitrary strings outside the table are not covered. A save that is refused (a path that is not UTF-8) writes nothing and is counted in the evidence, not judged.",
+                text="Config.tla specifies abstract ClientConfig / ServerConfig values (one class per field), the validity rule Valid transliterated from both is_valid() implementations, the specified save/load (identity on valid configurations) and the verdict predicate RtViol (load-failed, not-equal:<field>, not-valid-after-load, panic). TLC builds the cases as rows of an orthogonal array (every pair of values of every two fields occurs; measured 100 % in the evidence), a sweep that puts each of the 86 string classes at every string position, single-change families that break each is_valid rule once, and (thorough) seeded random full combinations; it checks that every row is valid by construction and the specified round trip satisfies the predicate. The harness builds the real struct, calls is_valid, Config::save to a file, Config::load, ==, is_valid again; TLC judges every observation whose original the real is_valid() accepts."),
+    "C42": dict(engine="json_rt", level="model_checking",
+                note=FN2_NOTE + "Also trusted: the h_json re-abstraction tables (val.rs, cross-checked against the real PartialEq on every case), its order-preserving JSON text reader (jtree.rs; its errors can only cause drift), serde_json. Bounded: leaf fidelity beyond the named points (full float / integer / DateTime ranges, arbitrary Unicode), DateTime outside 1601-9999 or below millisecond precision, empty NodeId identifiers and the generated service structures are not covered. Known finding: an ExpandedNodeId with both a namespace uri and a non-zero namespace index cannot round-trip in the Part 6 form.",
+                text="JsonCodec.tla specifies the JSON form (Enc) and the deserialiser (Dec) of String, ByteString, Guid, DateTime, StatusCode, NodeId, ExpandedNodeId, QualifiedName, LocalizedText, ExtensionObject, DiagnosticInfo, DataValue (all 64 presence combinations) and Variant (every scalar type at boundary points incl. NaN, infinities, -0.0, arrays of every element type with 0-4 elements, dimensions, nesting) over tiny leaf domains; TLC checks Dec(Enc(v)) = v and that null and empty are written differently for every enumerated value (3173 quick / 9799 thorough, exhaustive), and shows four deviation models of the pinned tree violating. Each value is serialised with the real serde_json::to_string and read back with from_str; the TLA+ predicate RtViol judges no panic, serialised, deserialised, equal (NaN = NaN), and names null/empty conflation; the real document is compared with the specified form as drift."),
+})
+
+NOT_APPLICABLE = {}
 ENGINES = [
+    {"name": "h_config", "path": "/verif/h_config", "serves_properties": ["C41"], "kind_free_text": "builds real ClientConfig / ServerConfig values from the abstract cases of Config.tla, saves them to a file and loads them back; judged by TraceConfig"},
+    {"name": "h_json", "path": "/verif/h_json", "serves_properties": ["C42"], "kind_free_text": "concretises the abstract values of JsonCodec.tla, runs the real serde_json to_string / from_str, re-abstracts value and document; judged by TraceJsonCodec"},
     {"name": "h_framing", "path": "/verif/h_framing", "serves_properties": ["C11", "C12"], "kind_free_text": "replays Framing.tla segmentations / partial-write schedules on the real TcpCodec and client SendBuffer, and SeqNum.tla histories on the real senders and receivers; judged by TraceFraming / TraceSeqNum"},
     {"name": "h_session", "path": "/verif/h_session", "serves_properties": ["C19", "C20"], "kind_free_text": "replays Session.tla histories and AuthTable.tla points through the real session services of a real server (several endpoint / user configurations); judged by TraceSession / TraceAuthTable"},
     {"name": "h_view", "path": "/verif/h_view", "serves_properties": ["C30", "C32"], "kind_free_text": "replays Browse.tla / Attribute.tla behaviours through the real View, NodeManagement and Attribute services; judged by TraceBrowse / TraceAttribute"},
